@@ -240,7 +240,8 @@ def wrap_verbose(func):
         try:
             func_output = func(*args, **kwargs)
         finally:
-            if ('verbose' in kwargs) and (kwargs['verbose'] is not None):
+            if ('verbose' in kwargs) and (kwargs['verbose'] is not None) and (current_level is not None):
+                # current_level is None if the logger has not been set up
                 set_level(level=logging._levelToName[current_level])
 
         return func_output
